@@ -48,6 +48,11 @@ fn dataset(n: usize) -> Vec<(String, Vec<Row>)> {
     all.into_iter().take(n).collect()
 }
 
+/// the second chunk comes from a client with another label set: its label column is `region`, not `host`
+fn chunk_batch(path: &str, rows: &[Row]) -> arrow_array::RecordBatch {
+    rows_to_batch_label(rows, false, if path.ends_with("chunk_1.parquet") { "region" } else { "host" })
+}
+
 #[derive(Default)]
 struct Shared {
     attempts: Vec<String>,
@@ -191,7 +196,16 @@ impl Scenario for C14Scenario {
         let meta = self.fresh_meta();
         meta.update_shard_metadata(OLD, &old_shard(), 0).await.expect("old shard");
         for (p, rows) in dataset(self.p.chunks) {
-            put_chunk(&self.mem, meta.as_ref(), &p, &rows, false).await;
+            let bytes = encode_parquet(&chunk_batch(&p, &rows));
+            let m = cardinalsin::ingester::ChunkMetadata {
+                path: p.clone(),
+                min_timestamp: rows.iter().map(|r| r.ts).min().unwrap_or(0),
+                max_timestamp: rows.iter().map(|r| r.ts).max().unwrap_or(0),
+                row_count: rows.len() as u64,
+                size_bytes: bytes.len() as u64,
+            };
+            self.mem.put(&object_store::path::Path::from(p.as_str()), bytes.into()).await.expect("put chunk");
+            meta.register_chunk(&p, &m).await.expect("register chunk");
         }
         self.start(ctl, true);
     }
@@ -310,6 +324,28 @@ impl Scenario for C14Scenario {
                     }
                     Err(p) => problems.push((format!("new-shard-{}-chunk-missing", ["a", "b"][i]), p)),
                 }
+            }
+            // whole rows (every non-null column value), not only their ids: old shard == new shard A + new shard B
+            let mut want_rows: Vec<String> = data.iter().flat_map(|(p, r)| whole_rows(encode_parquet(&chunk_batch(p, r))).expect("own chunk decodes")).collect();
+            want_rows.sort();
+            let mut got_rows: Vec<String> = Vec::new();
+            let mut readable = true;
+            for id in &new_shards {
+                let mut paths: Vec<String> = meta.get_chunks_for_shard(id).await.unwrap_or_default().into_iter().map(|e| e.chunk_path).collect();
+                paths.sort();
+                paths.dedup();
+                for p in paths {
+                    match crate::engine::store::raw_get(&self.mem, &p).await.map(whole_rows) {
+                        Some(Ok(r)) => got_rows.extend(r),
+                        _ => readable = false,
+                    }
+                }
+            }
+            got_rows.sort();
+            if readable && got_rows != want_rows && problems.is_empty() {
+                let lost: Vec<&String> = want_rows.iter().filter(|r| !got_rows.contains(r)).collect();
+                let new: Vec<&String> = got_rows.iter().filter(|r| !want_rows.contains(r)).collect();
+                problems.push(("row-content-changed".into(), format!("rows of the old shard that are in no new shard {lost:?}; rows that were not in the old shard {new:?}")));
             }
         }
         match meta.get_shard_metadata(OLD).await.ok().flatten().map(|m| m.state) {
